@@ -99,8 +99,9 @@ func (f *FeedbackAdapter) unpackRunLengthChunk(
 			ssrc:           0,
 			sequenceNumber: i,
 		}
-		received := chunk.PacketStatusSymbol != rtcp.TypeTCCPacketNotReceived
-		if received {
+		hasDelta := chunk.PacketStatusSymbol == rtcp.TypeTCCPacketReceivedSmallDelta ||
+			chunk.PacketStatusSymbol == rtcp.TypeTCCPacketReceivedLargeDelta
+		if hasDelta {
 			if len(deltas)-1 < deltaIndex {
 				return deltaIndex, refTime, result, errInvalidFeedback
 			}
@@ -108,7 +109,7 @@ func (f *FeedbackAdapter) unpackRunLengthChunk(
 			deltaIndex++
 		}
 		if ack, ok := f.history.get(key); ok {
-			if received {
+			if hasDelta {
 				ack.Arrival = refTime
 			}
 			result[resultIndex] = ack
@@ -130,8 +131,8 @@ func (f *FeedbackAdapter) unpackStatusVectorChunk(
 			ssrc:           0,
 			sequenceNumber: start + uint16(i), //nolint:gosec // G115
 		}
-		received := symbol != rtcp.TypeTCCPacketNotReceived
-		if received {
+		hasDelta := symbol == rtcp.TypeTCCPacketReceivedSmallDelta || symbol == rtcp.TypeTCCPacketReceivedLargeDelta
+		if hasDelta {
 			if len(deltas)-1 < deltaIndex {
 				return deltaIndex, refTime, result, errInvalidFeedback
 			}
@@ -139,7 +140,7 @@ func (f *FeedbackAdapter) unpackStatusVectorChunk(
 			deltaIndex++
 		}
 		if ack, ok := f.history.get(key); ok {
-			if received {
+			if hasDelta {
 				ack.Arrival = refTime
 			}
 			result[resultIndex] = ack
